@@ -301,8 +301,21 @@ Definition unicode_escape (s : str) : str + uerr :=
   | inl (st, out) => match ufinish st with inl t => inl (out ++ t) | inr e => inr e end
   end.
 
+(* _backslash_non_ascii_re.sub: an unescaped backslash in front of a non-ASCII character is doubled
+   (backslashes are read in pairs from the left, so "unescaped" = at an odd position of its run);
+   [esc] = the previous character was an unescaped backslash *)
+Fixpoint protect_go (esc : bool) (s : str) : str :=
+  match s with
+  | [] => []
+  | c :: r =>
+      if esc then (if 128 <=? c then 92 :: c :: protect_go false r else c :: protect_go false r)
+      else if c =? 92 then 92 :: protect_go true r
+      else c :: protect_go false r
+  end.
+Definition protect (s : str) : str := protect_go false s.
+
 (* the value of a string token with body [body] (the text between the quotes) *)
-Definition convert (nl : str) (body : str) : str + uerr := unicode_escape (bsr (normalize nl body)).
+Definition convert (nl : str) (body : str) : str + uerr := unicode_escape (bsr (protect (normalize nl body))).
 
 (* parser.parse_primary: adjacent string tokens are joined *)
 Definition parse_strings (values : list str) : str := concat values.
